@@ -90,7 +90,10 @@ def run(pid, tier, seed):
                 samples.append(json.loads(lines[len(lines) // 2]))
             for n in V.reject_lines(res):
                 e = json.loads(lines[n - 1])
-                if e["e"] == "Fixed":
+                if e["e"] == "FixedBig":
+                    verdict.violation("Fixed:beyond-24h:64-bit-range%s" % (":ub" if e["ub"] else ""),
+                                      "fixed_time_zone(%s limbs) rejected by FixedTrace: %s" % (e["ow"], lines[n - 1][:300]), e)
+                elif e["e"] == "Fixed":
                     o = e["o"]
                     cls = "zero" if o == 0 else "beyond-24h" if abs(o) > 86400 else "exactly-24h" if abs(o) == 86400 else \
                           "sub-minute" if abs(o) < 60 else "has-seconds" if o % 60 else "has-minutes" if o % 3600 else "whole-hours"
